@@ -163,6 +163,9 @@ type SiteSpec struct {
 	Guards []string
 	N      int
 	Why    string
+	// Exact: the site's dominating guards must be exactly Guards (no
+	// additional condition may decide whether the effect happens).
+	Exact bool
 }
 
 func (sp SiteSpec) matches(s Site, withGuards bool) bool {
@@ -190,6 +193,9 @@ func (sp SiteSpec) matches(s Site, withGuards bool) bool {
 			if !found {
 				return false
 			}
+		}
+		if sp.Exact && len(sp.Guards) != len(s.Guards) {
+			return false
 		}
 	}
 	return true
